@@ -276,6 +276,8 @@ InSelHops(W, x, e) == e[1] = "*" \/ e[1] \in (IF W.default THEN Component(W.T, W
 AllInHops(W, x, lst) == \A e \in Rng(lst) : InSelHops(W, x, Ent(e))
 ScopeOK(W, o) ==
   /\ \A e \in Rng(o.words) \cup Rng(o.senses) \cup Rng(o.synsets) : e[1] \in W.S
+  \* wn.taxonomy.roots / leaves of the wordnet, per part of speech (TX rows)
+  /\ \A t \in Rng(o.TX) : \A e \in Rng(t[2][2]) \cup Rng(t[3][2]) : e[1] \in AllIds(W)
   /\ \A t \in Rng(o.W) : AllIn(W, Ent(t), t[3][2]) /\ AllIn(W, Ent(t), t[4][2]) /\ AllIn(W, Ent(t), t[5][2])
   /\ \A t \in Rng(o.S) :
        /\ t[3][1] = "ok" => InSel(W, Ent(t), <<t[3][2], t[3][3]>>)
